@@ -409,3 +409,50 @@ pub fn rl_unit_boundaries(max_exp: u32) -> Vec<usize> {
     }
     v
 }
+
+// Runs laid out over at least two blocks such that the position right after the last run of the second-to-last block
+// (what the block sample of the last block stores) is exactly a power of two. The layout is MEASURED with rl_blocks
+// after shifting; None when no attempt reached it.
+pub fn rl_pow2_tail(rng: &mut Rng, max_exp: u32) -> Option<(usize, Vec<(usize, usize)>)> {
+    for _ in 0..60 {
+        let n = 12 + rng.below(30) as usize;
+        let mut runs: Vec<(usize, usize)> = Vec::new();
+        let mut pos = 0usize;
+        for _ in 0..n {
+            let gap = match rng.below(3) { 0 => 1 + rng.below(7), 1 => 8 + rng.below(56), _ => 64 + rng.below(300) } as usize;
+            let len = match rng.below(3) { 0 => 1 + rng.below(8), 1 => 9 + rng.below(55), _ => 65 + rng.below(200) } as usize;
+            pos += gap;
+            runs.push((pos, len));
+            pos += len;
+        }
+        let blocks = rl_blocks(&runs);
+        if blocks.len() < 2 {
+            continue;
+        }
+        let last = *blocks[blocks.len() - 2].last().unwrap();
+        let tail = last.0 + last.1;
+        let mut k = 1u32;
+        while (1usize << k) < tail {
+            k += 1;
+        }
+        if rng.chance(1, 3) {
+            k += 1 + rng.below(3) as u32;
+        }
+        if k > max_exp {
+            continue;
+        }
+        let delta = (1usize << k) - tail;
+        let shifted: Vec<(usize, usize)> = runs.iter().map(|(s, l)| (s + delta, *l)).collect();
+        let b2 = rl_blocks(&shifted);
+        if b2.len() < 2 {
+            continue;
+        }
+        let l2 = *b2[b2.len() - 2].last().unwrap();
+        if l2.0 + l2.1 == (1usize << k) {
+            let end = shifted[shifted.len() - 1];
+            let len = end.0 + end.1 + match rng.below(3) { 0 => 0, 1 => 1, _ => rng.below(50) as usize };
+            return Some((len, shifted));
+        }
+    }
+    None
+}
